@@ -100,6 +100,29 @@ CHECKS = {
         'note': TRUST + ' Not decided: number of host calls per executed call across rewinds; argument values.',
         'technique': 'static analysis: guard-atom abstract interpretation (typestate) + CFG must-pass-through over MIR',
     },
+    'C08': {
+        'text': 'Structure of the time-limited continue, none of which any test executes: (a) the 12 guarded methods call '
+                'if_async_we_cant before every semantic write and every return and propagate its error; (b) in '
+                'continue_internal the start-of-line actions run only when async_continue_active was false at entry '
+                '(guard-atom dataflow on the entry value) and the end-of-line actions lie inside the block entered only '
+                'through `output_stream_ends_in_newline || !can_continue()` (dominators), so a pause between two steps '
+                're-enters the loop with nothing reset and nothing completed; (c) recursive_continue_count is paired.',
+        'design_ref': 'DESIGN.md §4 C08',
+        'note': TRUST + ' Not decided: that the step sequence is identical under every pause schedule (dynamic).',
+        'technique': 'static analysis: dominators + guard-atom dataflow + effect summaries over MIR',
+    },
+    'C09': {
+        'text': 'Write-before-fail analysis of the host-call surface: for the 22 pub Result-returning methods of Story and '
+                'the helpers their errors come from (about 45 functions via `?` chains, up to the interpreter loop), no '
+                'error exit is reachable after a semantic write to story state, except exits classified as story faults / '
+                'story-generated paths / pre-validated (the validator must still dominate every write - re-validated); '
+                'every unwrap/index on the surface is guard-dominated or a re-validated table line; '
+                'recursive_continue_count is paired on every exit. Holds for every history at once; the suite never makes '
+                'an invalid call and keeps playing.',
+        'design_ref': 'DESIGN.md §4 C09',
+        'note': TRUST + ' Not decided: identical later behaviour beyond the modelled semantic fields (cache fields excluded by table).',
+        'technique': 'static analysis: interprocedural effect summaries (semantic writes) x error-exit reachability over MIR CFGs',
+    },
 }
 
 NOT_APPLICABLE = {
